@@ -344,6 +344,34 @@ pub mod verif_hooks {
         LIMIT.with(|l| l.get())
     }
 
+    std::thread_local! {
+        static READ_BUFFERS: core::cell::RefCell<std::vec::Vec<(usize, usize, usize)>> =
+            const { core::cell::RefCell::new(std::vec::Vec::new()) };
+    }
+
+    /// Observation only: a read connection reports where its receive buffer lives each time a
+    /// receive operation starts. Lets a harness tell whether data borrowed from the buffer still
+    /// points into the live allocation before it looks at it. Remembers the most recent 64
+    /// connections of the current thread.
+    pub fn note_read_buffer(id: usize, ptr: usize, len: usize) {
+        READ_BUFFERS.with(|b| {
+            let mut b = b.borrow_mut();
+            if let Some(e) = b.iter_mut().find(|e| e.0 == id) {
+                *e = (id, ptr, len);
+            } else {
+                if b.len() >= 64 {
+                    b.remove(0);
+                }
+                b.push((id, ptr, len));
+            }
+        });
+    }
+
+    /// `(address, length)` last reported for the receive buffer of connection `id` on this thread.
+    pub fn read_buffer_of(id: usize) -> Option<(usize, usize)> {
+        READ_BUFFERS.with(|b| b.borrow().iter().find(|e| e.0 == id).map(|e| (e.1, e.2)))
+    }
+
     /// Stand-in for the limit constant; compares like the current thread's limit.
     #[derive(Debug, Clone, Copy)]
     pub struct MaxBufferSize;
